@@ -53,6 +53,9 @@ func c16ScenarioWrite(r *sim.Run) {
 
 	hbp := defaultConfig.Heartbeat
 	st := newC16Stream(r, "s", hbp)
+	if k := tp.Choose("drain-races-check", 12); k > 0 {
+		st.raceOn, st.raceAt = true, k-1
+	}
 	var mid msgStream
 	if stack == 0 {
 		h, err := heartbeatServer(st, &heartbeatConfig{Interval: 1000 * time.Hour}, 65536)
